@@ -8,6 +8,8 @@ import (
 	"verifsim/core"
 	_ "verifsim/sims/queuesim"
 	_ "verifsim/sims/toysim"
+	_ "verifsim/sims/vaultsim"
+	_ "verifsim/sims/walletsim"
 )
 
 func TestMain(m *testing.M) { core.Main(m) }
